@@ -33,6 +33,10 @@ DEFLANGS = [None, "en", "zz"]
 
 
 def blocks(tier):
+    from xmc import corpus
+
+    for s in range(0, len(corpus.load()), 100):
+        yield ("corpus", s)
     full = len(grid.cells(False))
     core = len(grid.cells(True))
     plan = [(False, 0), (False, 1), (False, 2), (True, 3)] if tier == "quick" else [(False, 0), (False, 1), (False, 2), (False, 3), (True, 4)]
@@ -218,6 +222,13 @@ def contexts(case):
 
 
 def expand(block, tier):
+    if block[0] == "corpus":
+        from xmc import corpus
+
+        for e in corpus.load()[block[1]:block[1] + 100]:
+            for dl in (None, "arg"):
+                yield {"corpus": e["id"], "wb": e["wb"], "cells": [], "dl": dl}
+        return
     if block[0] == "napp":
         # noAppErrorString: a bind message that becomes itext only when translated; with and without a reference
         core = grid.cells(True)
@@ -369,7 +380,34 @@ def build_osm(o):
     return {"survey": rows, "osm": tags}, {}
 
 
+def check_corpus(case):
+    """a realistic workbook of the frozen corpus, with its own default language and with the first language it names
+    passed as the default_language argument: the itext closure invariant on the accepted output"""
+    from xmc import corpus
+
+    wb = case["wb"]
+    kw = {}
+    dl = corpus.setting(wb, "default_language")
+    if case["dl"] == "arg":
+        langs = sorted({k.split("::", 1)[1].strip() for sh in ("survey", "choices") for r in wb.get(sh) or () for k in r if "::" in k
+                        and k.split("::", 1)[0].strip().lower() in ("label", "hint", "constraint_message", "required_message", "guidance_hint")})
+        if not langs or dl:
+            return {"outcome": "corpus-no-language", "nt": False, "viol": [], "tr": 1}
+        dl = langs[0]
+        kw = {"default_language": dl}
+    out = run_convert(wb, **kw)
+    ntr = len(wb["survey"]) + len(wb.get("choices") or ())
+    if out.kind != "ok":
+        return {"outcome": f"corpus-{out.kind}", "nt": False, "viol": [], "tr": ntr}
+    obs = O.Obs(out.xform)
+    pr, nlang, nrefs = invariant_problems(obs, out.xform, dl)
+    pr = [(f"{sig}:corpus", det) for sig, det in pr]
+    return {"outcome": "ok", "nt": (nlang >= 2 or nrefs >= 1) and not pr, "viol": pr[:4], "tr": ntr}
+
+
 def check_one(case):
+    if case.get("corpus"):
+        return check_corpus(case)
     if case.get("api"):
         return check_api(case)
     if case.get("free"):
